@@ -625,9 +625,12 @@ def oracle_ext(run, kind, specs, args, site="shape_op_ext"):
                 return torch.cat(list(objs), args[0])
             from tensordict import LazyStackedTensorDict
             sd = args[1]
-            lz = [LazyStackedTensorDict.lazy_stack(list(o.unbind(sd)), sd) for o in objs]
-            dense = torch.cat(list(objs), args[0])
-            out = LazyStackedTensorDict.lazy_stack([t.apply(lambda v: torch.zeros_like(v)) for t in dense.unbind(sd)], sd)
+            lz = [LazyStackedTensorDict.lazy_stack([build_select(sp_, sd, i, 100000 * j) for i in range(sp_[1][sd])], sd)
+                  for j, sp_ in enumerate(specs)]
+            dd_ = args[0] + n if args[0] < 0 else args[0]
+            total = list(specs[0][1]); total[dd_] = sum(sp_[1][dd_] for sp_ in specs)
+            out_spec = resize_dim(specs[0], dd_, total[dd_])
+            out = LazyStackedTensorDict.lazy_stack([build_select(out_spec, sd, i).apply(lambda v: torch.zeros_like(v)) for i in range(total[sd])], sd)
             torch.cat(lz, args[0], out=out)
             return out.contiguous()
         if use_out:
@@ -652,6 +655,10 @@ def oracle_ext(run, kind, specs, args, site="shape_op_ext"):
         if terr is None:
             if kind == "gather" and args[1].numel() == 0:
                 run.count("ext.stricter_rejection", "gather with an empty index ('Cannot use torch.gather with an empty index')")
+                run.oracle_ok(site)
+                return
+            if kind == "repeat" and len(args[0]) != n:
+                run.count("ext.stricter_rejection", "repeat: 'The number of repeat elements must match the number of dimensions'")
                 run.oracle_ok(site)
                 return
             if kind == "repeat" and any(r < 0 for r in args[0]):
@@ -744,6 +751,23 @@ def strip_names(spec):
     return ("node", spec[1], None, [(k, strip_names(e)) for k, e in spec[3]])
 
 
+def build_select(spec, d, i, off=0):
+    """the i-th slice along batch dim d of build_offset(spec, off), built leaf by leaf with torch only
+    (the harness must not depend on tensordict.unbind to construct its inputs)"""
+    from tensordict import TensorDict
+    _, bs, names, entries = spec
+    src = {}
+    for k, e in entries:
+        if e[0] == "leaf":
+            src[k] = (torch.arange(numel(e[1]), dtype=torch.int64).reshape(e[1]) + off).select(d, i)
+        else:
+            src[k] = build_select(e, d, i, off)
+    nm = None if names is None else [n for j, n in enumerate(names) if j != d]
+    if nm is not None and all(n is None for n in nm):
+        nm = None
+    return TensorDict(src, batch_size=[x for j, x in enumerate(bs) if j != d], names=nm)
+
+
 def build_container(spec, kind, rng):
     """(container, spec it represents) for kind in {'lazy', 'tc'}; None if the kind does not apply"""
     if kind == "tc":
@@ -755,9 +779,8 @@ def build_container(spec, kind, rng):
         return None, None
     from tensordict import LazyStackedTensorDict
     sp = strip_names(spec)
-    td = build(sp)
     d = rng.choice(dims)
-    cont = LazyStackedTensorDict.lazy_stack(list(td.unbind(d)), d)
+    cont = LazyStackedTensorDict.lazy_stack([build_select(sp, d, i) for i in range(bs[d])], d)
     cont._c02_stack_dim = d
     return cont, sp
 
